@@ -258,6 +258,21 @@ Theorem C18_landscape_scale : forall A c, admissible A ->
 Proof. exact landscape_scale. Qed.
 Print Assumptions C18_landscape_scale.
 
+(* the function whose integral (L1), squared integral (L2) and maximum (sup) is the distance of two landscapes:
+   compute_distance_of_landscapes forms abs(first - second); read back by compute_value_at_a_given_point it is
+   |lambda_k(A)(t) - lambda_k(B)(t)| for every level and every t between the sentinels *)
+Theorem C18_landscape_abs_difference : forall A B, admissible A -> admissible B ->
+  exists la lb s, construct A 0 = Some la /\ construct B 0 = Some lb /\ land_sub la lb = Some s /\
+    forall k t, - INF < t -> t < INF ->
+      exists v, value_at (land_abs s) k t = Some v /\ v == qabs (lambda A k t - lambda B k t).
+Proof. exact landscape_abs_difference. Qed.
+Print Assumptions C18_landscape_abs_difference.
+
+(* abs() keeps the shape of a level (the inserted zero crossings lie strictly between their neighbours) *)
+Theorem C18_abs_level3 : forall l, level3 l -> level3 (abs_level l).
+Proof. exact abs_level3. Qed.
+Print Assumptions C18_abs_level3.
+
 (* level3 = the shape of a stored level (strictly increasing from -INF to INF, at least 3 points, ordinate 0 at the two outer
    points on either side).  Levels are closed under the transcribed merge, so that operations can be chained. *)
 Theorem C18_merge_level_closed_add : forall l1 l2, level3 l1 -> level3 l2 ->
